@@ -52,7 +52,7 @@ class Ob:
                     break
             witness = chosen or (witness[-1][1] if witness else None)
         d = {"id": self.id, "engine": "smt", "doc": self.doc, "bounds": self.bounds,
-             "queries": self.queries + (it.queries if it else 0), "time_s": round(time.time() - self.t0, 2),
+             "queries": self.queries + (it.queries if it else 0), "obligation_queries": self.queries, "time_s": round(time.time() - self.t0, 2),
              "paths": self.paths, "truncated_paths": self.truncated, "source_fn": self.fn.name if self.fn else None}
         if self.failures:
             d["status"] = "candidate"
@@ -553,8 +553,8 @@ def sites_c13(fns, tier="quick"):
     return out
 
 
-def site_insert_vacant(fns, suffix):
-    f = mir.find(fns, suffix, "src/core/store/operations.rs")
+def site_insert_vacant(fns, suffix, hint="src/core/store/operations.rs"):
+    f = mir.find(fns, suffix, hint)
     ob = Ob("site" + suffix.replace("::", "_"), "%s (new key): the whole record size is reserved before the entry is created, the entry is created only in the "
             "Vacant arm, then the ordered index is filled, the timestamp observed, the reservation committed and record_count incremented by one; "
             "a path that creates nothing commits nothing and counts nothing; an existing key with an equal-or-newer timestamp is refused before any effect" % suffix,
